@@ -165,68 +165,34 @@ theorem rAfter_ext (items items' : Nat → P (Option RItem)) (hi : ∀ n, Ext (i
       | some n => exact hi n
     · exact ext_refl _
 
-theorem rItem_mono : ∀ fuel, Mono (rItem fuel) := by
-  intro fuel
-  induction fuel with
-  | zero => exact fail_mono
+theorem rItem_mono : ∀ levels, Mono (rItem levels) := by
+  intro levels
+  induction levels with
+  | zero => exact pure_mono _
   | succ f ih =>
     unfold rItem
     exact bind_mono _ _ scanLine_mono (fun cmd => rAfter_mono _ (rItemsWith_mono _ ih) cmd)
 
-theorem rItem_nogrow : ∀ fuel, NoGrow (rItem fuel) := by
-  intro fuel
-  induction fuel with
-  | zero => intro b x r h; simp [rItem] at h
+theorem rItem_nogrow : ∀ levels, NoGrow (rItem levels) := by
+  intro levels
+  induction levels with
+  | zero => exact pure_nogrow _
   | succ f ih =>
     unfold rItem
     exact bind_nogrow _ _ scanLine_nogrow (fun cmd => rAfter_nogrow _ (rItemsWith_nogrow _ ih) cmd)
 
-theorem rItem_progress : ∀ fuel, Progress (rItem fuel) := by
-  intro fuel
-  cases fuel with
-  | zero => intro b x r h; simp [rItem] at h
-  | succ f =>
-    unfold rItem
-    exact bind_progress _ _ scanLine_progress (fun cmd => rAfter_nogrow _ (rItemsWith_nogrow _ (rItem_nogrow f)) cmd)
-
-theorem rItem_fuel_succ : ∀ fuel, Ext (rItem fuel) (rItem (fuel + 1)) := by
-  intro fuel
-  induction fuel with
-  | zero => intro b x h; simp [rItem] at h
-  | succ f ih =>
-    show Ext (rItem (f + 1)) (rItem (f + 1 + 1))
-    unfold rItem
-    exact ext_bind _ _ _ _ (ext_refl _) (fun cmd => rAfter_ext _ _ (rItemsWith_ext _ _ ih) cmd)
-
-theorem rItem_fuel_le (f : Nat) : ∀ k, Ext (rItem f) (rItem (f + k)) := by
-  intro k
-  induction k with
-  | zero => exact ext_refl _
-  | succ k ih =>
-    intro b x h
-    exact rItem_fuel_succ (f + k) b x (ih b x h)
+theorem rItem_progress (levels : Nat) : Progress (rItem (levels + 1)) := by
+  unfold rItem
+  exact bind_progress _ _ scanLine_progress (fun cmd => rAfter_nogrow _ (rItemsWith_nogrow _ (rItem_nogrow levels)) cmd)
 
 theorem redis_mono (s : Bool) : Mono (redis.next s) := by
   cases s
-  · intro b x r more h
-    show redisNext false (b ++ more) = some (x, r ++ more)
-    have h' : bindP (rItem (b.length + 1)) (fun it => pureP ((redisStep it).1, !(redisStep it).2)) b = some (x, r) := h
-    have hm := bind_mono _ _ (rItem_mono (b.length + 1)) (fun it => pure_mono ((redisStep it).1, !(redisStep it).2)) b x r more h'
-    have he := ext_bind (rItem (b.length + 1)) (rItem (b.length + 1 + more.length))
-      (fun it => pureP ((redisStep it).1, !(redisStep it).2)) (fun it => pureP ((redisStep it).1, !(redisStep it).2))
-      (rItem_fuel_le _ _) (fun _ => ext_refl _) (b ++ more) (x, r ++ more) hm
-    have hl : (b ++ more).length + 1 = b.length + 1 + more.length := by simp only [List.length_append]; omega
-    unfold redisNext
-    simp only
-    rw [hl]
-    exact he
+  · exact bind_mono _ _ (rItem_mono redisLevels) (fun it => pure_mono ((redisStep it).1, !(redisStep it).2))
   · exact fail_mono
 
 theorem redis_progress (s : Bool) : Progress (redis.next s) := by
   cases s
-  · intro b x r h
-    have h' : bindP (rItem (b.length + 1)) (fun it => pureP ((redisStep it).1, !(redisStep it).2)) b = some (x, r) := h
-    exact bind_progress _ _ (rItem_progress _) (fun _ => pure_nogrow _) b x r h'
+  · exact bind_progress _ _ (rItem_progress 32) (fun _ => pure_nogrow _)
   · exact fail_progress
 
 /-! ### smtp -/
